@@ -38,6 +38,13 @@ fn qp3(q: &mut Q, p: &Point3) -> Vec<i64> { vec![q.q(p.x, QX), q.q(p.y, QX), q.q
 fn qn2(q: &mut Q, v: &Vector2) -> Vec<i64> { vec![q.q(v.x, QN), q.q(v.y, QN), 0] }
 fn qn3(q: &mut Q, v: &Vector3) -> Vec<i64> { vec![q.q(v.x, QN), q.q(v.y, QN), q.q(v.z, QN)] }
 
+/// relative difference of two scalars, times 2^30, clamped (1e9 when the first is zero and the second is not)
+fn rel30(a: f64, b: f64) -> i64 {
+    if !(a.is_finite() && b.is_finite()) { return 2_000_000_000; }
+    if a == b { return 0; }
+    if a == 0.0 { return 1_000_000_000; }
+    (((b - a) / a.abs()) * 1073741824.0).round().clamp(-1.0e9, 1.0e9) as i64
+}
 fn sp2_meas(q: &mut Q, sp: &SurfacePoint2, p: &Point2) -> Value {
     json!({"proj": q.q(sp.scalar_projection(p), QS), "planar": q.q(sp.planar_distance(p), QS),
            "pp": qp2(q, &sp.projection(p)), "at": qp2(q, &sp.at_distance(2.0))})
@@ -62,9 +69,17 @@ pub fn exec(rec: &Value, _st: &mut State) -> Value {
             let qs = gvvi(rec, "qs");
             let m0: Vec<Value> = qs.iter().map(|x| sp2_meas(&mut q, &sp, &p2(x))).collect();
             let m1: Vec<Value> = qs.iter().map(|x| sp2_meas(&mut q, &a, &(t * p2(x)))).collect();
+            // far queries [k, ex, ey, _]: the point p + k * n + e, far along the normal and barely off it; the two scalars are compared
+            // between the frames as RELATIVE differences * 2^30 (derived observation: the absolute quantum would hide them)
+            let nv = Vector2::new(gvi(rec, "n")[0] as f64, gvi(rec, "n")[1] as f64);
+            let far: Vec<Value> = match rec.get("far") { None => vec![], Some(_) => gvvi(rec, "far").iter().map(|f| {
+                let x = sp.point + nv * f[0] as f64 + Vector2::new(f[1] as f64, f[2] as f64) * 0.5;
+                let y = t * x;
+                json!({"planar": rel30(sp.planar_distance(&x), a.planar_distance(&y)), "proj": rel30(sp.scalar_projection(&x), a.scalar_projection(&y))})
+            }).collect() };
             json!({"e0": {"p": qp2(&mut q, &sp.point), "n": qn2(&mut q, &sp.normal)},
                    "e1": {"p": qp2(&mut q, &a.point), "n": qn2(&mut q, &a.normal)},
-                   "e1b": {"p": qp2(&mut q, &b.point), "n": qn2(&mut q, &b.normal)}, "m0": m0, "m1": m1, "finite": q.finite})
+                   "e1b": {"p": qp2(&mut q, &b.point), "n": qn2(&mut q, &b.normal)}, "m0": m0, "m1": m1, "far": far, "finite": q.finite})
         }
         ("sp", 3) => {
             let t = iso3(tv);
@@ -77,11 +92,17 @@ pub fn exec(rec: &Value, _st: &mut State) -> Value {
             let qs = gvvi(rec, "qs");
             let m0: Vec<Value> = qs.iter().map(|x| sp3_meas(&mut q, &sp, &pl0, &p3(x))).collect();
             let m1: Vec<Value> = qs.iter().map(|x| sp3_meas(&mut q, &a, &pl1, &(t * p3(x)))).collect();
+            let nv = Vector3::new(n[0] as f64, n[1] as f64, n[2] as f64);
+            let far: Vec<Value> = match rec.get("far") { None => vec![], Some(_) => gvvi(rec, "far").iter().map(|f| {
+                let x = sp.point + nv * f[0] as f64 + Vector3::new(f[1] as f64, f[2] as f64, f[3] as f64) * 0.5;
+                let y = t * x;
+                json!({"planar": rel30(sp.planar_distance(&x), a.planar_distance(&y)), "proj": rel30(sp.scalar_projection(&x), a.scalar_projection(&y))})
+            }).collect() };
             json!({"e0": {"p": qp3(&mut q, &sp.point), "n": qn3(&mut q, &sp.normal)},
                    "e1": {"p": qp3(&mut q, &a.point), "n": qn3(&mut q, &a.normal)},
                    "e1b": {"p": qp3(&mut q, &b.point), "n": qn3(&mut q, &b.normal)},
                    "pl0": {"n": qn3(&mut q, &pl0.normal), "d": q.q(pl0.d, QS)}, "pl1": {"n": qn3(&mut q, &pl1.normal), "d": q.q(pl1.d, QS)},
-                   "m0": m0, "m1": m1, "finite": q.finite})
+                   "m0": m0, "m1": m1, "far": far, "finite": q.finite})
         }
         ("curve", 2) => {
             let t = iso2(tv);
@@ -162,15 +183,20 @@ pub fn exec(rec: &Value, _st: &mut State) -> Value {
             let verts: Vec<Point3> = gvvi(rec, "vpos").iter().map(|x| p3(x)).collect();
             let faces: Vec<[u32; 3]> = gvvi(rec, "faces").iter().map(|f| [f[0] as u32, f[1] as u32, f[2] as u32]).collect();
             let m0 = Mesh::new(verts, faces, false);
+            // derived data of the mesh is queried BEFORE the copy is made and moved (the same object is queried again afterwards)
+            let vn0: Vec<Vec<i64>> = m0.get_vertex_normals().iter().map(|n| qn3(&mut q, n)).collect();
+            let fn0: Vec<Vec<i64>> = m0.get_face_normals().map(|v| v.iter().map(|n| qn3(&mut q, &n.into_inner())).collect()).unwrap_or_default();
             let mut m1 = m0.clone();
             m1.transform(&t);
+            let vn1: Vec<Vec<i64>> = m1.get_vertex_normals().iter().map(|n| qn3(&mut q, n)).collect();
+            let fn1: Vec<Vec<i64>> = m1.get_face_normals().map(|v| v.iter().map(|n| qn3(&mut q, &n.into_inner())).collect()).unwrap_or_default();
             let qs = gvvi(rec, "qs");
             // queries on the half lattice (doubled coordinates)
             let cl = |q: &mut Q, m: &Mesh, p: &Point3| { let s = m.surf_closest_to(p); json!({"p": qp3(q, &s.point), "n": qn3(q, &s.normal), "dist": q.q((p - s.point).norm(), QS)}) };
             let c0: Vec<Value> = qs.iter().map(|x| cl(&mut q, &m0, &(p3(x) * 0.5))).collect();
             let c1: Vec<Value> = qs.iter().map(|x| cl(&mut q, &m1, &(t * (p3(x) * 0.5)))).collect();
             json!({"v0": m0.vertices().iter().map(|p| qp3(&mut q, p)).collect::<Vec<_>>(), "v1": m1.vertices().iter().map(|p| qp3(&mut q, p)).collect::<Vec<_>>(),
-                   "f0": m0.faces(), "f1": m1.faces(), "c0": c0, "c1": c1, "finite": q.finite})
+                   "f0": m0.faces(), "f1": m1.faces(), "c0": c0, "c1": c1, "vn0": vn0, "vn1": vn1, "fn0": fn0, "fn1": fn1, "finite": q.finite})
         }
         ("meshopt", _) => {
             // the optional `transform` argument of the tolerance queries, and deviations, against moving query and mesh by hand
